@@ -57,6 +57,15 @@ impl BigInt
     }
 
 
+    /// Compares both the value and the size.
+    /// (The `==` operator only compares values.)
+    pub fn is_identical(&self, other: &BigInt) -> bool
+    {
+        self == other &&
+        self.size == other.size
+    }
+
+
     pub fn min_size(&self) -> usize
     {
         if self.bigint.sign() == num_bigint::Sign::NoSign
